@@ -138,6 +138,78 @@ def raw_work(item):
 ENC_PW = ["s3cret-€uro", "€", "pässword☃", "密码abc", "a€b", "€€€€"]
 
 
+def long_scenario(n, letter, how):
+    """a very long password (around and beyond the 64 KiB line limit), the PASS line arriving in two network segments
+    or through Client.login"""
+    pw = letter * n
+    with logcap.capture() as cap:
+        rig = Rig(tree={}, users=lambda a, base: users(a, base, "Other-Password-1"))
+        try:
+            w = rig.world
+            a = w.aioftp
+            codes = []
+            if how == "client":
+                async def main():
+                    c = a.Client(path_io_factory=a.MemoryPathIO)
+                    await c.connect("127.0.0.1", 2121)
+                    try:
+                        await c.login("bob", pw)
+                        codes.append("ok")
+                    except Exception as exc:
+                        codes.append(type(exc).__name__)
+                    finally:
+                        c.close()
+                try:
+                    w.run(main())
+                except Hang:
+                    codes.append("hang")
+            else:
+                rig.ev(0, "@connect")
+                rig.ev(0, "USER bob")
+                s0 = rig.sessions[0]
+                line = b"PASS " + pw.encode() + b"\r\n"
+                cut = {"two-segments": len(line) // 2, "tail-late": len(line) - 3, "head-first": 5}[how]
+                s0.send(line[:cut])
+                w.settle()
+                if not s0.closed():
+                    s0.send(line[cut:])
+                    w.settle()
+                codes.append([c for c, _ in s0.ctl.take_replies()])
+                if not s0.closed():
+                    r = rig.ev(0, "PWD")
+                    codes.append([c for c, _ in (r or [])])
+            w.settle(0)
+            return cap.text(), codes
+        finally:
+            rig.close()
+
+
+def long_work(item):
+    _, how, lengths = item
+    part = report.Partial()
+    for n in lengths:
+        log, codes = long_scenario(n, "q", how)
+        rlog, rcodes = long_scenario(n, "z", how)
+        part.evaluations += 1
+        part.traces += 2
+        part.transitions += 2
+        k = report.fp(["long", how, n])
+        part.states.add(k)
+        part.nontrivial.add(k)
+        sig = {"kind": None, "long_password": True, "via": how}
+        rp = {"long": [how, n]}
+        if codes == rcodes and log != rlog:
+            a_l, b_l = log.split("\n"), rlog.split("\n")
+            diff = next(((x, y) for x, y in zip(a_l, b_l) if x != y), ("<length>", "<length>"))
+            sig["kind"] = "log-depends-on-password"
+            part.violation(sig, {"length": n, "log_line": diff[0][:120], "reference_line": diff[1][:120]}, replay=rp)
+        if "q" * 16 in log:
+            sig["kind"] = "password-literal-in-log"
+            part.violation(sig, {"length": n}, replay=rp)
+    part.sample({"long_passwords": lengths, "via": how}, limit=1)
+    return part
+
+
 def enc_scenario(encoding, p, how):
     """a client configured with an encoding that cannot represent the password (or can): all aioftp logging around
     the failing / succeeding login is captured"""
@@ -209,6 +281,8 @@ def enc_work(item):
 def work(item):
     if item[0] == "enc":
         return enc_work(item)
+    if item[0] == "long":
+        return long_work(item)
     if len(item) == 3:
         return raw_work(item)
     shape, spelling, via_client, pws = item
@@ -265,6 +339,9 @@ def build_items(tier):
     for enc in ("latin-1", "ascii", "cp1251"):
         for how in ("context", "login"):
             items.append(("enc", enc, how, ENC_PW))
+    for how in ("two-segments", "tail-late", "head-first", "client"):
+        for n in ([1000, 65529, 65531, 65536, 70000, 140000] + ([300000] if how == "client" else [])):
+            items.append(("long", how, [n]))
     return items
 
 
@@ -277,7 +354,8 @@ def run(tier, seed, t0):
     bounds = {"alphabet": SIGMA, "max_len": 2 if tier == "quick" else 3, "extra": [repr(e)[:20] for e in EXTRA],
               "shapes": SHAPES, "spellings": SPELL + ["Client.login"], "cases": part.evaluations,
               "raw_byte_passwords": len(RAW), "client_encodings": ["latin-1", "ascii", "cp1251"],
-              "client_entry_points": ["Client.login", "Client.context"]}
+              "client_entry_points": ["Client.login", "Client.context"],
+              "long_passwords": "1000 .. 300000 characters, the PASS line in one piece (client) or two network segments"}
     return report.finish(
         PID, tier, seed, "model_checking", part, t0,
         rule="for every (history shape, PASS spelling or Client.login, password) the full formatted log stream of one "
@@ -292,7 +370,9 @@ def run(tier, seed, t0):
 def replay(path):
     data = json.loads(open(path).read())
     rp = data["replay"]
-    if "enc" in rp:
+    if "long" in rp:
+        part = long_work(("long", rp["long"][0], [rp["long"][1]]))
+    elif "enc" in rp:
         part = enc_work(("enc", rp["enc"][0], rp["enc"][1], [rp["enc"][2]]))
     elif "raw" in rp:
         part = raw_work((rp["shape"], rp["spelling"], [rp["raw"].encode("latin-1")]))
